@@ -75,22 +75,6 @@ Section Run.
 End Run.
 
 (* ---------- canonical forms: map of a row listed along its key list; Go maps sorted by key ---------- *)
-Fixpoint str_ltb (a b : str) : bool :=
-  match a, b with
-  | [], [] => false
-  | [], _ :: _ => true
-  | _ :: _, [] => false
-  | x :: a', y :: b' => if x <? y then true else if y <? x then false else str_ltb a' b'
-  end.
-
-Fixpoint insert_sorted {A} (k : str) (v : A) (l : list (str * A)) : list (str * A) :=
-  match l with
-  | [] => [(k, v)]
-  | (k', v') :: r => if str_ltb k k' then (k, v) :: l else (k', v') :: insert_sorted k v r
-  end.
-Definition sort_by_key {A} (l : list (str * A)) : list (str * A) :=
-  fold_right (fun kv acc => insert_sorted (fst kv) (snd kv) acc) [] l.
-
 Fixpoint norm_rv (n : nat) (v : rv) : rv :=
   match n with
   | 0%nat => v
